@@ -90,7 +90,10 @@ def generate(seed, tier):
                         body.append(["sleep", wrng.choice((0.01, 0.1, 0.5))])
                 txs.append({"timeout": wrng.choice((0.0, 0.3, 2.0, 30.0)), "delay": wrng.choice((0.05, 0.1)), "body": body})
             actors.append({"kind": kind, "name": "%s%d" % (kind[0].upper(), fi), "txs": txs,
-                           "own_process": mrng.random() < 0.5})
+                           "own_process": mrng.random() < 0.5,
+                           # AsyncWriter hands writerargs to every ix.writer() call it makes, the first
+                           # attempt and the replay thread's: a timeout among them is an ordinary choice
+                           "wargs_timeout": random.Random("%s/wargs/%d" % (seed, fi)).choice((None, None, 0.0, 0.2))})
     policy = mrng.choice((["uniform"], ["sticky", 0.5], ["sticky", 0.9], ["sticky", 0.99],
                           ["pct", mrng.randint(1, 3), mrng.choice((300, 1500, 4000))],
                           ["pct", mrng.randint(1, 3), mrng.choice((300, 1500, 4000))]))
@@ -108,6 +111,8 @@ class FrontWriter(object):
     """An AsyncWriter or BufferedWriter racing the other writers. AsyncWriter never raises
     LockError: it buffers the calls and a helper thread replays them once it gets the lock.
     BufferedWriter takes the lock when it is constructed and keeps it until close()."""
+
+    wargs_timeout = None
 
     def __init__(self, s, name, kind, txs, own_process=True):
         self.s = s
@@ -159,6 +164,8 @@ class FrontWriter(object):
         me = k.current
         self.committed_gen = None
         if self.kind == "async":
+            if self.wargs_timeout is not None:
+                kw["timeout"] = self.wargs_timeout
             w = self._call(lambda: AsyncWriter(self.ix, delay=tx.get("delay", 0.1), writerargs=kw), "__init__")
             passthrough = w.writer is not None
             s.count("async_passthrough" if passthrough else "async_buffered")
@@ -259,6 +266,12 @@ def _plain(s, a):
     return w
 
 
+def _front(s, a):
+    f = FrontWriter(s, a["name"], a["kind"], a["txs"], own_process=a.get("own_process", True))
+    f.wargs_timeout = a.get("wargs_timeout")
+    return f
+
+
 def check_history(s, writers):
     holds = sorted(s.all_holds, key=lambda h: h[0])
     # mutual exclusion by effects
@@ -333,7 +346,7 @@ def execute(record, trace=False):
                 s.k.enable_lines(*record["lines"])
             writers = [_plain(s, a)
                        if a.get("kind", "writer") == "writer" else
-                       FrontWriter(s, a["name"], a["kind"], a["txs"], own_process=a.get("own_process", True))
+                       _front(s, a)
                        for a in record["actors"]]
             dl = s.run_actors(writers)
             st = s.full_stats()
